@@ -53,6 +53,16 @@ package output
 //@   pure
 //@   ensures [named] err == nil ==> defs == storedDefsOf(outputs) && len(defs) >= 0
 
+// what one stored record says was declared: the handler type of its kind and the path (or tag) it carries; nil records and
+// records of an unknown kind are errors
+//@ func getOutputDefinitionFromProto(output) (def, err)
+//@   pure
+//@   ensures [nil_record_is_an_error] output == nil ==> err != nil
+//@   ensures [file_record] err == nil && typeIs(output.Kind, "*gen.Output_File") ==> def == "file::" + ite(asPtr(output.Kind, "*gen.Output_File").File == nil, "", asPtr(output.Kind, "*gen.Output_File").File.Path)
+//@   ensures [directory_record] err == nil && typeIs(output.Kind, "*gen.Output_Directory") ==> def == "dir::" + ite(asPtr(output.Kind, "*gen.Output_Directory").Directory == nil, "", asPtr(output.Kind, "*gen.Output_Directory").Directory.Path)
+//@   ensures [docker_record] err == nil && typeIs(output.Kind, "*gen.Output_DockerImage") ==> def == "docker::" + ite(asPtr(output.Kind, "*gen.Output_DockerImage").DockerImage == nil, "", asPtr(output.Kind, "*gen.Output_DockerImage").DockerImage.LocalTag)
+//@   ensures [known_kinds_only] err == nil ==> typeIs(output.Kind, "*gen.Output_File") || typeIs(output.Kind, "*gen.Output_Directory") || typeIs(output.Kind, "*gen.Output_DockerImage")
+
 //@ func validateTargetResultOutputs(target, targetResult) (verr)
 //@   pure
 //@   ensures [nil_result_rejected] targetResult == nil ==> verr != nil
